@@ -24,6 +24,10 @@ LEVEL_TEXT = {
             "Allocations are tagged with the iteration they were made in; they are verified immediately before the switch that recycles their region and everything else after it; capacity after a switch must equal the region's empty capacity; the N region capacities must not exceed the block."),
     "C03": ("fault_enumeration", "5 C03", "upstream failpoint at every call index of a recorded history + requests around the reported maxima, outcome classified by exception type and handler counters",
             "For each scenario the upstream fails at call k for every k (quick: k <= 12 plus samples); the exception must derive from std::bad_alloc, the matching handler must have run, earlier allocations stay intact (shadow heap), the same request succeeds afterwards, nothing leaks. Requests around max_node_size/max_array_size/max_alignment must throw the right family or return null from try_, never null from throwing functions, and try_ never reaches the upstream."),
+    "C08": ("exploration", "5 C08", "foreign-pointer offers between sibling allocators with adjacent blocks (incl. an allocation starting exactly one past a block's end) + per-leaf release logs under fallback/segregator compositions",
+            "Every live allocation is offered to every allocator that did not hand it out (must return false, capacity figures and patterns unchanged) and to its owner (must return true). Compositions up to depth 3 are driven until the default allocator spills into the fallback and drains again; each instrumented leaf verifies that its memory comes back to it once with the shape of its own allocation."),
+    "C09": ("exploration", "5 C09", "call log of an instrumented leaf under 22 wrapper compositions (exactly one leaf request per request, release mirrors the leaf allocation) + tracker callback log",
+            "For each composition every top-level request must appear at the leaf as one allocation with at least the bytes/alignment asked for, and every release as one release on the same leaf with the kind/count/size/alignment of that leaf allocation; tracker callbacks are counted and their shape compared."),
     "C11": ("exploration", "5 C11", "address-range monitor for joint members against the upstream block + release-shape check + exact-fit / one-short requests",
             "All member addresses of seeded joint layouts are checked to lie behind the object inside its single upstream block, disjoint and aligned; one byte less than needed must throw out_of_fixed_memory; reset/destruction must release the block in one call with its allocation parameters; clones must be equal and independent."),
     "C20": ("fault_enumeration", "5 C20", "constructor failure injected at every element index, live-object ledger + upstream balance",
